@@ -326,6 +326,42 @@ pub fn cases_c15(rng: &mut Rng, count: usize, tier: &str) -> Vec<Case> {
         o.max_terms = if tier == "thorough" { 20 } else { 10 };
         o.min_terms = 1;
         o.max_records = 4;
+        if rng.chance(1, 8) {
+            // a binary file; three times in four one of its records names a term the file does not contain.
+            // Whatever from_bytes returns as an ontology must be referentially closed and walkable.
+            let mut ob = o;
+            ob.flags = true;
+            ob.roots_eighths = 8;
+            ob.min_terms = ob.min_terms.max(2);
+            let f = gen::gen_facts(rng, ob);
+            let mut fr = crate::bin::restrict(&f, 3);
+            let mut tags = vec!["binary_file"];
+            if rng.chance(3, 4) {
+                let absent = loop {
+                    let c = rng.range(2, 9_999_999) as u32;
+                    if !fr.has(c) {
+                        break c;
+                    }
+                };
+                let recs = match rng.below(3) {
+                    0 => &mut fr.genes,
+                    1 => &mut fr.omim,
+                    _ => &mut fr.orpha,
+                };
+                if !recs.is_empty() {
+                    let i = rng.below(recs.len() as u64) as usize;
+                    recs[i].terms.push(absent);
+                    recs[i].terms.sort();
+                    tags.push("record_names_absent_term");
+                    tags.push("nt");
+                }
+            }
+            let w = World::Bytes(crate::bin::encode(&fr, 3, rng));
+            let bl = w.build();
+            let full = world::wobs(&bl);
+            out.push(Case { input: world::winput(&w, fr.n_records() + 3), obs: V::T(vec![full.clone(), full]), tags });
+            continue;
+        }
         let f = gen::gen_facts(rng, o);
         let kindb = if f.has(1) && f.has(118) { rng.below(2) as u8 } else { u8::from(rng.chance(1, 8)) };
         let mut s = build::script_from_facts(rng, &f, kindb);
